@@ -364,5 +364,5 @@ def run(ctx):
     r5(ctx)
     r6(ctx)
     import rules.common as _common
-    ctx.rule('C04.R8', 'arguments keep their roles across calls: at every call of a repository function in the request handling sources (master, slave and result of a request are not exchanged) whose arguments are named like parameters of the callee, no two of them are passed crosswise (argument i named like parameter j and argument j like parameter i)', minimum=15)
-    _common.swapped_args_rule(ctx, 'C04.R8', ('src/ebusd/bushandler', 'src/ebusd/scan', 'src/lib/ebus/protocol'), 15)
+    ctx.rule('C04.R8', 'arguments keep their roles across calls: at every call of a repository function in the request handling sources (master, slave and result of a request are not exchanged) whose arguments are named like parameters of the callee, no two of them are passed crosswise (argument i named like parameter j and argument j like parameter i)', minimum=4)
+    _common.swapped_args_rule(ctx, 'C04.R8', ('src/ebusd/bushandler', 'src/ebusd/scan', 'src/lib/ebus/protocol'), 4)
